@@ -403,3 +403,41 @@ Qed.
 
 Example ex_not_enough : enoughRemainingPieces (sp_board ex_goal) (upd 40 WQUEEN start_board) = false.
 Proof. vm_compute. reflexivity. Qed.
+
+(** * Forms used by Properties_C16.v *)
+Theorem reachable_iff_played : forall sp, reachable sp <-> exists moves, plays start_spos moves sp.
+Proof.
+  intros sp; split; [exact (reachable_plays sp)|].
+  intros [ms H]. exact (plays_reachable _ _ _ H reach_start).
+Qed.
+
+Theorem move_count_effect_legal : forall sp m,
+  length (sp_board sp) = 64%nat -> legal_spec sp m ->
+  let b := sp_board sp in let b' := sp_board (make_spec sp m) in let w := sp_white sp in
+  length b' = 64%nat /\
+  (forall k, cnt b' (mk_piece (negb w) k) <= cnt b (mk_piece (negb w) k)) /\
+  ((forall k, cnt b' (mk_piece w k) <= cnt b (mk_piece w k)) \/
+   (exists pk, In pk [Queen; Rook; Bishop; Knight] /\
+      cnt b' (mk_piece w Pawn) + 1 <= cnt b (mk_piece w Pawn) /\
+      cnt b' (mk_piece w pk) <= cnt b (mk_piece w pk) + 1 /\
+      forall k, k <> pk -> cnt b' (mk_piece w k) <= cnt b (mk_piece w k))).
+Proof. intros sp m HL L. exact (move_count_effect sp m HL (legal_shape sp m L)). Qed.
+
+Theorem piece_counts_meaning : forall b,
+  (validatePieceCounts b = 0%N <-> promotion_budget_ok b true /\ promotion_budget_ok b false) /\
+  (pieceCountsValid b = true <-> promotion_budget_ok b true /\ promotion_budget_ok b false).
+Proof. intros b; split; [exact (validate_iff b)|exact (pieceCountsValid_iff b)]. Qed.
+
+(** 1.h4 g5 2.hxg5 h6 3.gxh6 Nf6 4.h7 Ng8 5.hxg8=Q: the invariant is exercised on a game with captures
+    and a promotion (two white queens, seven white pawns) *)
+Definition ex_promo_moves : list move :=
+  [mvq 7 1 7 3; mvq 6 6 6 4; mvq 7 3 6 4; mvq 7 6 7 5; mvq 6 4 7 5; mvq 6 7 5 5; mvq 7 5 7 6; mvq 5 5 6 7;
+   mv 7 6 6 7 WQUEEN].
+
+Example ex_promo_played :
+  match play start_spos ex_promo_moves with
+  | Some sp => (cnt (sp_board sp) WQUEEN =? 2) && (cnt (sp_board sp) WPAWN =? 7) && (cnt (sp_board sp) BKNIGHT =? 1)
+               && (cnt (sp_board sp) BPAWN =? 6) && N.eqb (validatePieceCounts (sp_board sp)) 0
+  | None => false
+  end = true.
+Proof. vm_compute. reflexivity. Qed.
